@@ -143,7 +143,7 @@ func init() {
 				cs = append(cs, cse)
 			}
 			// limits near the top of the uint64 range: far away, so the run ends by its duration, not by the limit
-			for i, N := range []uint64{1 << 62, 1<<63 - 1, 1 << 63, 1<<63 + 12345, ^uint64(0) - 1, ^uint64(0)} {
+			for i, N := range []uint64{1 << 62, 1<<63 - 1, 1 << 63, 1<<63 + 12345, ^uint64(0) - 1, ^uint64(0), 1<<32 + 5, 1 << 32, 1<<33 + 1, 1<<48 + 3} {
 				mode := pick(r, "users", "constant")
 				p := c03Params{N: N, MustHit: false, Body: "sleep"}
 				if mode == "users" {
@@ -234,6 +234,10 @@ func c03Run(c *core.Case, o *core.Outcome) {
 	}
 	if uint64(S) > p.N {
 		o.Violate("ceiling:"+p.Desc, "iteration function invoked %d times with max-iterations %d (%s)", S, p.N, p.Desc)
+		return
+	}
+	if !p.MustHit && uint64(S) < p.N && l.Contains("Max Iterations Reached") {
+		o.Violate("far-limit-reached:"+p.Desc, "the run announced that max-iterations was reached after %d iterations; the limit is %d (%s)", S, p.N, p.Desc)
 		return
 	}
 	if !p.MustHit && S == 0 {
